@@ -1,7 +1,8 @@
-(* Extraction for C03: the wire specification, the code walker and the per-target observables (ExtrOcamlBasic only). *)
-From Verif Require Import Wire Walker TargetsC03.
+(* Extraction for C03: the wire specification, the spec-side per-target description, and the code-shaped observables over the shipped
+   primitive models (ExtrOcamlBasic only). *)
+From Verif Require Import Wire Walker TargetsC03 ObsC03.
 Require Extraction ExtrOcamlBasic.
 Extraction Language OCaml.
 Extraction "model.ml" enc_body dec_body mask_body ser_spec des_spec des_spec_pa cast_val
   walk_ser_obs walk_des_bits bmax bmin fmax fmin align extent prefix_bits tag_bits wf_ty bits_of_N N_of_bits
-  py_ser tie_free f16_nans_canonical.
+  py_ser tie_free f16_nans_canonical obs_ser obs_des mk_options.
